@@ -50,8 +50,10 @@ func (x *Exec) loopInvariants(n ast.Node) []*Clause {
 
 type discovery struct {
 	writes   map[string]bool
+	nonFresh map[string]bool
 	assigned map[types.Object]bool
 	cut      bool
+	n0       int
 }
 
 // discover runs f on a scratch copy of st with obligations suppressed and reports what it writes.
@@ -64,6 +66,8 @@ func (x *Exec) discover(st *State, f func(*State)) discovery {
 	x.assigned = map[types.Object]bool{}
 	x.sawCut = false
 	x.vc.quiet++
+	dd := &discovery{nonFresh: map[string]bool{}, n0: x.allocSeq}
+	x.discStack = append(x.discStack, dd)
 	fr := x.frame
 	savedLoops := fr.loops
 	savedRets, savedRetVals := fr.rets, fr.retVals
@@ -81,7 +85,8 @@ func (x *Exec) discover(st *State, f func(*State)) discovery {
 	fr.loops = savedLoops
 	fr.rets, fr.retVals = savedRets, savedRetVals
 	x.vc.quiet--
-	d := discovery{x.vc.writes, x.assigned, x.sawCut}
+	x.discStack = x.discStack[:len(x.discStack)-1]
+	d := discovery{writes: x.vc.writes, nonFresh: dd.nonFresh, assigned: x.assigned, cut: x.sawCut, n0: dd.n0}
 	// drop facts produced during discovery
 	for _, f := range x.vc.facts[nf:] {
 		delete(x.vc.factSet, f)
@@ -147,8 +152,17 @@ func (x *Exec) runLoop(st *State, ls loopSpec) *State {
 		x.cutAssert(st, ls.node.Pos(), x.cutName(fr, lname+".head"), fr.recv)
 	}
 	// 3. havoc
+	allocAtEntry := x.heapGet(st, allocKey, SInt)
 	for _, k := range sortedKeys(d.writes) {
-		if _, ok := x.e.keys[k]; ok {
+		if _, ok := x.e.keys[k]; !ok {
+			continue
+		}
+		if k == allocKey {
+			x.heapHavoc(st, k)
+			x.vc.Fact("(>= " + st.heap[allocKey] + " " + allocAtEntry + ")")
+		} else if !d.nonFresh[k] && !d.cut {
+			x.heapHavocFresh(st, k, allocAtEntry)
+		} else {
 			x.heapHavoc(st, k)
 		}
 	}
